@@ -161,8 +161,10 @@ func (ht *quadraticHashTable[K, V]) IsEmpty() bool {
 func (ht *quadraticHashTable[K, V]) Put(key K, val V) {
 	// Soft-deleted entries keep occupying their slots, so they count towards the load that triggers a rehash.
 	// Otherwise, the empty slots that terminate every probe sequence can run out.
-	if float32(ht.n+ht.t)/float32(ht.m) >= ht.maxLF {
-		if ht.loadFactor() >= ht.maxLF {
+	// A quadratic probe sequence visits only (m+1)/2 distinct slots, so it needs one of them to stay empty even
+	// after this insertion. Hence, the entry about to be added is counted as well.
+	if float32(ht.n+ht.t+1)/float32(ht.m) >= ht.maxLF {
+		if float32(ht.n+1)/float32(ht.m) >= ht.maxLF {
 			ht.resize(2 * ht.m)
 		} else {
 			ht.resize(ht.m) // Rehash in place to drop the soft-deleted entries
